@@ -450,3 +450,23 @@ def setter_corpus(eng, limit=False):
     if not m:
         return {"error": f"rc={r.returncode} " + (r.stdout + r.stderr)[-300:]}
     return {"parsed": int(m.group(1)), "bad": int(m.group(2)), "fails": [x[:300] for x in re.findall(r"SETTER-FAIL.*", r.stdout)[:10]]}
+
+
+def sort_corpus(eng):
+    """native url_search_params::sort base case beyond the solver's 16-element bound (harness/sort_corpus.c)"""
+    from engine import Unit
+    u = Unit("default", ["vk_sp_sort"])
+    obj = eng.native_obj(u)
+    exe = os.path.join(eng.work, "sort_corpus.exe")
+    o = os.path.join(eng.work, "sort_corpus.o")
+    r = subprocess.run([GCC, "-O1", "-w", "-c", os.path.join(VERIF, "harness", "sort_corpus.c"), "-o", o], capture_output=True, text=True)
+    if r.returncode != 0:
+        return {"error": "gcc: " + r.stderr[-400:]}
+    r = subprocess.run([CLANGXX, "-no-pie", o, obj, "-o", exe, "-lpthread"], capture_output=True, text=True)
+    if r.returncode != 0:
+        return {"error": "link: " + r.stderr[-400:]}
+    r = subprocess.run([exe], capture_output=True, text=True, errors="replace", timeout=600)
+    m = re.search(r"SORTCORPUS runs=(\d+) bad=(\d+)", r.stdout)
+    if not m:
+        return {"error": f"rc={r.returncode} " + (r.stdout + r.stderr)[-300:]}
+    return {"parsed": int(m.group(1)), "bad": int(m.group(2)), "fails": [x[:400] for x in re.findall(r"SORT-FAIL.*", r.stdout)[:5]]}
